@@ -31,9 +31,10 @@ RULE = ("structured blob values: key_info sizes 0..800, content lengths from the
         "field boundaries {0,1,2^31,2^32-1}, Unicode names incl. non-BMP; the 17 captured Windows blobs; mutated blobs compared by outcome bucket; every case with produced bytes or a distinct "
         "error class is non-trivial; distinct = distinct canonical case text per unit")
 PARTIAL = [
-    "strict DER read-back (strict_parse (pack x) = [cms_tree x]) is proved for the emitted template (C06_emitted_template: AES256-wrap without "
-    "parameters, GCM parameters as a tree) and not for arbitrary wf blob values, whose algorithm parameters are opaque octets that need not be DER; "
-    "for those C06_is_cms gives pack = encode(cms_tree) and the check's independent strict reader re-parses every generated case",
+    "strict DER read-back (strict_parse (pack x) = [cms_tree x]) is proved for the emitted template (C06_emitted_template: GCM parameters as a "
+    "tree) and for every wf blob value without algorithm parameters (C06_strict_parse), not for blob values carrying caller-supplied parameters: "
+    "those are opaque octets that need not be DER; for them C06_is_cms gives pack = encode(cms_tree) with the parameters spliced in, and the "
+    "check's independent strict reader re-parses every generated case whose parameters are DER",
 ]
 
 OID_WRAP = [2, 16, 840, 1, 101, 3, 4, 1, 45]
